@@ -419,7 +419,7 @@ def gen_op(rng, w, stats):
         return x - x % 30
 
     def lock_op():
-        le = rng.choice(opts) if rng.random() < 0.94 else rng.choice([0, 1, 30, 359, opts[0] + 1, 100000])
+        le = rng.choice(opts) if rng.random() < 0.92 else rng.choice([0, 1, 30, 359, opts[0] + 1, 100000])
         cls = rng.random()
         amt = log_amount(rng) if cls < 0.7 else rng.randint(1, 12)
         if rng.random() < 0.02:
@@ -456,7 +456,7 @@ def gen_op(rng, w, stats):
         if mine:
             e, b = rng.choice(mine)
             good = [le for le in opts if som(now + le) > e]
-            le = rng.choice(good) if good and rng.random() < 0.9 else rng.choice(opts)
+            le = rng.choice(good) if good and rng.random() < 0.82 else rng.choice(opts)
             if rng.random() < 0.3:
                 return ["ExtendVia", c, e, part(rng, b), le]
             dest = c if rng.random() < 0.95 else rng.choice(users)
@@ -477,7 +477,7 @@ def gen_op(rng, w, stats):
             le = rng.choice(good) if good and rng.random() < 0.9 else rng.choice(opts)
             return ["Reduce", c, e, part(rng, b), le]
     elif roll < 0.63:     # unlock
-        pool = dead if (dead and rng.random() < 0.93) else (mine if rng.random() < 0.5 else [])
+        pool = dead if (dead and rng.random() < 0.88) else (mine if rng.random() < 0.6 else [])
         if pool:
             k = min(len(pool), rng.choice([1, 1, 2, 3]))
             return ["Unlock", c, [[e, part(rng, b)] for e, b in rng.sample(pool, k)]]
@@ -492,7 +492,7 @@ def gen_op(rng, w, stats):
             ripe = [u for u in withq if s["queue"][u][0][0] <= now]
             if rng.random() < 0.5:
                 return ["CancelUnbond", rng.choice(withq)]
-            if ripe and rng.random() < 0.85:
+            if ripe and rng.random() < 0.75:
                 return ["Claim", rng.choice(ripe)]
             if rng.random() < 0.5:
                 return ["Advance", max(0, s["queue"][withq[0]][0][0] - now)]
@@ -506,7 +506,7 @@ def gen_op(rng, w, stats):
             rc, sd, at = rng.choice(pend)
             if sub < 0.12:
                 return ["CancelTransfer", OWNER if rng.random() < 0.85 else rng.choice(users), sd, rc]
-            if now - at <= w.cfg["minlock"] and rng.random() < 0.7:
+            if now - at <= w.cfg["minlock"] and rng.random() < 0.5:
                 return ["Advance", w.cfg["minlock"] + 1 - (now - at)]
             return ["Withdraw", rc, sd]
         if live:
@@ -522,7 +522,7 @@ def gen_op(rng, w, stats):
             return ["LockFunds", c, rc, ps]
         if rng.random() < 0.1:
             return ["Withdraw", c, rng.choice(users)]
-    elif roll < 0.97:     # wrapper
+    elif roll < 0.955:     # wrapper
         wh = [u for u in users if whold.get(u)]
         sub = rng.random()
         if wh and sub < 0.45:
